@@ -13,8 +13,8 @@ namespace StirVerif.C10
 def Exam.normalised (e : Exam) : Exam :=
   { e with
     calibration := if e.calibration > 0 then e.calibration else -1
-    lowThres := if e.highThres > 0 ∧ e.lowThres > 0 then e.lowThres else -1
-    highThres := if e.highThres > 0 ∧ e.lowThres > 0 then e.highThres else -1
+    lowThres := if e.highThres > 0 ∧ e.lowThres ≥ 0 then e.lowThres else -1
+    highThres := if e.highThres > 0 ∧ e.lowThres ≥ 0 then e.highThres else -1
     frames := if e.frames = [] then [(0, 0)] else e.frames
     rnName := if e.rnName = "" ∨ e.rnName = "Unknown" then "Unknown" else e.rnName
     rnHalfLife := if e.rnHalfLife > 0 then e.rnHalfLife else -1
@@ -24,8 +24,6 @@ def Exam.normalised (e : Exam) : Exam :=
 structure Exam.Storable (e : Exam) : Prop where
   orientation : e.orientation ≤ 3
   rotation : e.rotation ≤ 5
-  notDecubitus : e.rotation ≠ 2 ∧ e.rotation ≠ 3          -- `right`, `left` are written as `other`
-  window : ¬ (e.highThres > 0 ∧ e.lowThres = 0)             -- a window [0, high] is written but not read
   durations : ∀ p ∈ e.frames, p.2 - p.1 > 0                -- frames of duration ≤ 0 are not written
 
 theorem enumFrom1_snd_mem {α : Type} (l : List α) (i : Nat) : ∀ p ∈ enumFrom1 i l, p.2 ∈ l := by
@@ -83,8 +81,6 @@ theorem frames_roundtrip (l : List (Rat × Rat)) (hd : ∀ p ∈ l, p.2 - p.1 > 
 theorem exam_roundtrip (e : Exam) (h : e.Storable) : readExam (writeExam e) none = e.normalised := by
   have ho := h.orientation
   have hr := h.rotation
-  obtain ⟨hr2, hr3⟩ := h.notDecubitus
-  have hw := h.window
   have hfr := frames_roundtrip e.frames h.durations
   -- field by field
   have hmod : (readExam (writeExam e) none).modality = e.modality := by
@@ -97,23 +93,19 @@ theorem exam_roundtrip (e : Exam) (h : e.Storable) : readExam (writeExam e) none
     · simp [h3]; omega
   have hrot : (readExam (writeExam e) none).rotation = e.rotation := by
     simp only [readExam, writeExam]
-    have : e.rotation = 0 ∨ e.rotation = 1 ∨ e.rotation = 4 ∨ e.rotation = 5 := by omega
-    rcases this with h0 | h0 | h0 | h0 <;> simp [h0]
+    by_cases h5 : e.rotation < 5
+    · simp [h5]
+    · simp [h5]; omega
   have hcal : (readExam (writeExam e) none).calibration = if e.calibration > 0 then e.calibration else -1 := by
     simp only [readExam, writeExam]
     by_cases hc : e.calibration > 0 <;> simp [hc]
-  have hwin : (readExam (writeExam e) none).lowThres = (if e.highThres > 0 ∧ e.lowThres > 0 then e.lowThres else -1) ∧
-      (readExam (writeExam e) none).highThres = (if e.highThres > 0 ∧ e.lowThres > 0 then e.highThres else -1) := by
+  have hwin : (readExam (writeExam e) none).lowThres = (if e.highThres > 0 ∧ e.lowThres ≥ 0 then e.lowThres else -1) ∧
+      (readExam (writeExam e) none).highThres = (if e.highThres > 0 ∧ e.lowThres ≥ 0 then e.highThres else -1) := by
     simp only [readExam, writeExam]
     by_cases hh : e.highThres > 0
-    · by_cases hl : e.lowThres > 0
-      · have : e.lowThres ≥ 0 := le_of_lt hl
-        simp [hh, hl, this]
-      · by_cases hl0 : e.lowThres ≥ 0
-        · exfalso
-          apply hw
-          exact ⟨hh, le_antisymm (not_lt.mp hl) hl0⟩
-        · simp [hh, hl, hl0]
+    · by_cases hl : e.lowThres ≥ 0
+      · simp [hh, hl]
+      · simp [hh, hl]
     · simp [hh]
   have hframes : (readExam (writeExam e) none).frames = if e.frames = [] then [(0, 0)] else e.frames := by
     simp only [readExam, writeExam]
@@ -142,17 +134,40 @@ theorem exam_roundtrip (e : Exam) (h : e.Storable) : readExam (writeExam e) none
     simp only [Exam.normalised]
     rw [hmod, hori, hrot, hcal, hwin.1, hwin.2, hframes, hname, hhl, hbr]
 
-/-- K5: rotations `right` (2) and `left` (3) come back as `other` (4) -/
-theorem rotation_lost (e : Exam) (h : e.rotation = 2 ∨ e.rotation = 3) (db : Option (Rat × Rat)) :
-    (readExam (writeExam e) db).rotation = 4 := by
+/-- every patient rotation, including `right` (2) and `left` (3), is read back unchanged (repo commit 697526ee8) -/
+theorem rotation_survives (e : Exam) (h : e.rotation ≤ 5) (db : Option (Rat × Rat)) :
+    (readExam (writeExam e) db).rotation = e.rotation := by
   simp only [readExam, writeExam]
-  rcases h with h | h <;> simp [h]
+  by_cases h5 : e.rotation < 5
+  · simp [h5]
+  · simp [h5]; omega
 
-/-- K4: an energy window with lower threshold 0 is written but comes back unset -/
-theorem window_lost (e : Exam) (hh : e.highThres > 0) (hl : e.lowThres = 0) (db : Option (Rat × Rat)) :
+/-- an energy window with lower threshold 0 is written and read back (repo commit ccc9f5cdc) -/
+theorem window_zero_survives (e : Exam) (hh : e.highThres > 0) (hl : e.lowThres = 0) (db : Option (Rat × Rat)) :
     (writeExam e).window = some (0, e.highThres) ∧
-      (readExam (writeExam e) db).lowThres = -1 ∧ (readExam (writeExam e) db).highThres = -1 := by
+      (readExam (writeExam e) db).lowThres = 0 ∧ (readExam (writeExam e) db).highThres = e.highThres := by
   simp only [readExam, writeExam]
   simp [hh, hl]
+
+/-- a time frame of duration ≤ 0 is not written; the reader reports it as the default frame (0, 0) -/
+theorem zero_duration_frame_lost (e : Exam) (t : Rat) (hf : e.frames = [(t, t)]) (db : Option (Rat × Rat)) :
+    (readExam (writeExam e) db).frames = [(0, 0)] := by
+  simp only [readExam, writeExam, hf]
+  simp [enumFrom1, lookupFrame, List.range_succ]
+
+/-! ### regression witnesses: the code before commits 697526ee8 / ccc9f5cdc -/
+
+/-- old `write_interfile_patient_position`: `right`, `left` and `other` were all written as `other` -/
+def writeRotationOld (r : Nat) : Option Nat :=
+  if r = 0 then some 0 else if r = 1 then some 1 else if r = 2 ∨ r = 3 ∨ r = 4 then some 4 else none
+
+/-- old `InterfileHeader::post_processing`: the window was accepted only when both thresholds were > 0 -/
+def windowAcceptedOld (lo hi : Rat) : Bool := decide (hi > 0 ∧ lo > 0)
+
+theorem old_rotation_lost : writeRotationOld 2 = some 4 ∧ writeRotationOld 3 = some 4 := by
+  simp [writeRotationOld]
+
+theorem old_window_zero_lost (hi : Rat) : windowAcceptedOld 0 hi = false := by
+  simp [windowAcceptedOld]
 
 end StirVerif.C10
